@@ -41,13 +41,18 @@ for id in sorted(os.listdir('/verif/seeded')):
         "caught_by_own_property": prop in caught.get(id, []),
     }
     try:
-        fp = json.load(open('/verif/seeded/round2_first_pass.json'))['breaking_first_pass']
+        fp = dict(json.load(open('/verif/records/round2_first_pass.json'))['breaking_first_pass'])
+        r3 = json.load(open('/verif/records/round3_first_pass.json'))['first_pass']
+        for k3, v3 in r3.items():
+            fp[k3] = dict(v3, round=3)
     except Exception:
         fp = {}
     if id in fp:
-        meta["round"] = 2
+        meta["round"] = fp[id].get("round", 2)
+        if "relation_to_earlier_samples" in fp[id]:
+            meta["relation_to_earlier_samples"] = fp[id]["relation_to_earlier_samples"]
         meta["first_pass"] = {"reported_by": fp[id]["reported_by"], "undecided": fp[id]["undecided"],
-                              "note": "outcome of all quick checks before any rule was changed in response to the round-2 samples; caught_by below is after such changes and is in-sample where it differs"}
+                              "note": "outcome of all quick checks before any rule was changed in response to the samples of that round; caught_by below is after such changes and is in-sample where it differs"}
     else:
         meta["round"] = 1
     if id == 'C04-2':
